@@ -178,6 +178,55 @@ func (e *Exec) invokeIntrinsic(s *State, f *Frame, x *ssa.Call, recv Val, method
 		case "BurnCoins":
 			fk, d := e.transfer(s, x, cid, e.moduleAddr(args[1]), "", e.coinsList(s, args[2]), false, true)
 			return fk, d, true
+		case "InputOutputCoins":
+			// inputs / outputs are the model records built by banktypes.NewInput / NewOutput (address value, coins).
+			// SDK semantics: every input is debited first (all must be funded), then every output credited.
+			if fk := e.maybeFault(s); fk != nil {
+				return fk, false, true
+			}
+			ins := e.sliceElems(s, args[1].(SliceV))
+			outs := e.sliceElems(s, args[2].(SliceV))
+			type mv struct {
+				addr  string
+				coins [][2]string
+			}
+			var debit, credit []mv
+			for _, v := range ins {
+				st := v.(StructV)
+				debit = append(debit, mv{addrTerm(st.F[0]), e.coinsList(s, st.F[1])})
+			}
+			for _, v := range outs {
+				st := v.(StructV)
+				credit = append(credit, mv{addrTerm(st.F[0]), e.coinsList(s, st.F[1])})
+			}
+			// funding conditions, debits of the same (address term, denom) accumulate
+			acc := map[string]string{}
+			var conds []string
+			for _, d := range debit {
+				for _, c := range d.coins {
+					k := d.addr + "|" + c[0]
+					prev, ok := acc[k]
+					if !ok {
+						prev = "0"
+					}
+					acc[k] = tAdd(prev, c[1])
+					conds = append(conds, tCmp(">", c[1], "0"), tCmp(">=", e.balance(s, cid, d.addr, c[0]), acc[k]))
+				}
+			}
+			fk := e.fork(s, tAnd(conds...), func(n *State) {
+				for _, d := range debit {
+					for _, c := range d.coins {
+						e.setBal(n, cid, d.addr, c[0], tSub(e.balance(n, cid, d.addr, c[0]), c[1]))
+					}
+				}
+				for _, d := range credit {
+					for _, c := range d.coins {
+						e.setBal(n, cid, d.addr, c[0], tAdd(e.balance(n, cid, d.addr, c[0]), c[1]))
+					}
+				}
+				top(n).Regs[x] = IfaceV{}
+			}, func(n *State) { top(n).Regs[x] = errIface() })
+			return fk, false, true
 		case "GetBalance", "SpendableCoin":
 			denom := e.strID(args[2])
 			f.Regs[x] = StructV{[]Val{args[2], BigV{T: e.balance(s, cid, addrTerm(args[1]), denom)}}}
@@ -536,6 +585,12 @@ func init() {
 	reg("(time.Duration).Seconds", func(e *Exec, s *State, f *Frame, x *ssa.Call, a []Val) ([]*State, bool) {
 		return ret(f, x, FloatV{T: "(/ (to_real " + a[0].(Sym).S + ") 1000000000.0)"})
 	})
+	// bank Input / Output records: modelled as (address value, coins); only InputOutputCoins reads them
+	for _, n := range []string{"NewInput", "NewOutput"} {
+		reg("github.com/cosmos/cosmos-sdk/x/bank/types."+n, func(e *Exec, s *State, f *Frame, x *ssa.Call, a []Val) ([]*State, bool) {
+			return ret(f, x, StructV{[]Val{a[0], a[1]}})
+		})
+	}
 	reg(sdkp+"Uint64ToBigEndian", func(e *Exec, s *State, f *Frame, x *ssa.Call, a []Val) ([]*State, bool) {
 		return ret(f, x, BytesV{Segs: []Seg{{Kind: "be64", T: a[0].(Sym).S}}})
 	})
